@@ -11,13 +11,27 @@ Real code (run over harness.fakecourier, virtual clock):
                  orchestrate.as_completed (exhausted / raising task / closed early), with workers losing
                  capacity (a hung call) and dying / being pronounced dead (before, during — by the task itself —
                  and after acquisition) as the capacity/liveness oracle.
-Model: lean/MlModel/Model/Registry.lean, Owner.lean; theorems: lean/MlModel/Properties/C20.lean.
+  family 'sched': the same real Worker / WorkerPool / WorkerRegistry objects (and the real CourierServer._heartbeat
+                 handler) with several pool threads and environment threads (die / revive / heartbeat sends / late or
+                 failed deliveries / clock ticks) under the DETERMINISTIC SCHEDULER (harness/sched/shim.py, machinery in
+                 harness/lib_owner.py): pre-emption at every operation of `_states_lock`, `_lock` (incl. `locked()`),
+                 `WorkerRegistry._lock` and at every read / write of `Worker._worker_pool`; every executed operation
+                 label, the enabled thread set before every step, the registry contents before every step and all
+                 outcomes are compared with the product LTS Model/OwnerEnv.lean (schedule replay), for seeded-random and
+                 PCT schedules, plus a model-guided stage that reaches every program point of the LTS.
+  family 'schedrun': WorkerPool.run / call_and_wait on a real thread under the same scheduler against other pools' threads
+                 and environment threads; the composite operations' clock-driven spin loops are not in the LTS, so this
+                 family is decided by the independent oracle alone (single owner, no stealing, dead stays dead, monotone,
+                 nothing acquired when the operation returns or raises).
+Model: lean/MlModel/Model/Registry.lean, Owner.lean, OwnerEnv.lean; theorems: lean/MlModel/Properties/C20.lean.
 `extra`: exhaustive exploration of all interleavings of small configurations of the Owner LTS in the Lean
 driver (a *test* of the model / theorem hypotheses), the racy orders of F13 / F14 executed by hand on the
 real objects, and a real-thread stress run with the oracle only.
 """
+import copy
 import itertools
 
+from harness import lib_owner as lo
 from harness.core import err_kind
 
 PID = 'C20'
@@ -29,8 +43,13 @@ TRUSTED = [
     'harness VirtualClock replaces the `time` attribute of the repo courier modules',
     'modelled, not verified: threading.Lock / RLock (mutual exclusion, non-blocking acquire), '
     'concurrent.futures.Future (done / exception / cancel), CPython atomicity of single attribute reads and writes',
-    'true thread interleavings of the real code are exercised only by a non-deterministic stress run (oracle only) '
-    'until harness/sched exists; the Owner LTS exposes step?/runSched and the driver a "sched" mode for replay',
+    'scheduler shim (harness/sched/shim.py) implements CPython Lock / RLock semantics; family sched: one atomic step = one '
+    'operation of _states_lock / _lock (acquire, release, locked()) / WorkerRegistry._lock, or one read / write of '
+    'Worker._worker_pool (data descriptor installed on the class by the harness), the thread-local code after it (dictionary '
+    'access under the registry lock, futures done()/exception(), clock reads, fake-transport submit) is fused into the step, '
+    'in the model and under the shim alike',
+    'family sched: the servers are fake-transport endpoints whose heartbeat handler is the real CourierServer._heartbeat '
+    'function applied to a stand-in object; max_parallelism = 1',
 ]
 ASSUMPTIONS = [
     'times are integral ticks of a virtual clock; thresholds in {100, 180, 400}',
@@ -43,6 +62,13 @@ RULE = ('live: small-exhaustive event sequences (length<=3 quick / <=4 thorough)
         'raise and tasks that pronounce a worker dead while they run) from 2-3 pools over '
         '2-3 shared workers, plus all ordered pairs of a small op alphabet; non-trivial = live: some is_alive observed after '
         'an unregister or a late delivery / own: some worker owned by a pool other than the acting one at some op; '
+        'sched: 1-3 workers, 2-3 pools, 2-3 pool threads (1-3 operations each out of _acquire_all / release_all / '
+        'next_idle_worker / Worker.release / idle_workers / Worker.call) + 0-2 environment threads (die / revive / send heartbeat / '
+        'deliver (late, failed) / tick), schedule chosen on the REAL code by a seeded uniform-random or PCT chooser and replayed '
+        'choice by choice on the Lean LTS; non-trivial = at least 8 thread switches; model-guided stage: per configuration a BFS of '
+        'the LTS yields, per program point, a shortest schedule ending there, replayed on the real code; '
+        'schedrun (oracle only): one pool thread running WorkerPool.run / call_and_wait (tasks that succeed or raise) against the '
+        'pool and environment threads of a sched case, inline transport, spin loops advance the virtual clock by 30-100 s; '
         'distinct = distinct canonical case JSON')
 
 THRS = [100, 180, 400]
@@ -197,7 +223,91 @@ def own_alphabet():
   return al
 
 
+def sched_spec(rng):
+  return dict(kind=rng.choice(['random', 'pct']), seed=rng.randrange(10**9), changes=rng.randrange(1, 6),
+              horizon=rng.choice([30, 80, 200]))
+
+
+def rand_sched_pool_op(rng, p, ws):
+  sub = [w for w in ws if rng.random() < 0.7] or list(ws)
+  rng.shuffle(sub)
+  r = rng.random()
+  if r < 0.22:
+    return dict(op='acquire_all', p=p, ws=sub, n=rng.choice([0, 0, 1, 2]))
+  if r < 0.42:
+    return dict(op='release_all', p=p, ws=sub if rng.random() < 0.4 else [])
+  if r < 0.70:
+    return dict(op='next_idle', p=p, ws=sub, acq=rng.random() < 0.75)
+  if r < 0.80:
+    return dict(op='release', p=p, w=rng.choice(ws))
+  if r < 0.92:
+    return dict(op='idle', p=p)
+  return dict(op='call', p=p, w=rng.choice(ws))
+
+
+def rand_sched_env_op(rng, nworkers):
+  r = rng.random()
+  w = rng.randrange(nworkers)
+  if r < 0.22:
+    return dict(op='die', w=w)
+  if r < 0.40:
+    return dict(op='revive', w=w)
+  if r < 0.55:
+    return dict(op='send', w=w, alive=rng.random() < 0.5)
+  if r < 0.85:
+    return dict(op='deliver', k=rng.randrange(3), fail=rng.random() < 0.2)
+  return dict(op='tick', d=rng.choice([0, 1, 31, 60, 99, 100, 200]))
+
+
+def rand_sched(rng):
+  nworkers = rng.choice([1, 2, 2, 3])
+  npools = rng.choice([2, 2, 3])
+  pw = []
+  for _ in range(npools):
+    ws = [w for w in range(nworkers) if rng.random() < 0.8] or [rng.randrange(nworkers)]
+    rng.shuffle(ws)
+    pw.append(ws)
+  threads = []
+  for i in range(rng.choice([2, 2, 3])):
+    # mostly one thread per pool; sometimes two threads drive the same pool
+    p = i % npools if rng.random() < 0.8 else rng.randrange(npools)
+    threads.append(dict(kind='pool', ops=[rand_sched_pool_op(rng, p, pw[p]) for _ in range(rng.randrange(1, 4))]))
+  for _ in range(rng.choice([0, 1, 1, 2])):
+    threads.append(dict(kind='env', ops=[rand_sched_env_op(rng, nworkers) for _ in range(rng.randrange(1, 5))]))
+  return dict(fam='sched', nworkers=nworkers, pw=pw, thr=rng.choice([100, 100, 180]), now=1000,
+              reg0=[rng.choice(['alive', 'alive', 'alive', 'dead', 'absent']) for _ in range(nworkers)],
+              threads=threads, sched=sched_spec(rng))
+
+
+def rand_schedrun(rng):
+  """The composite operations on real threads under the scheduler (oracle only): one pool runs `run` /
+  `call_and_wait` (tasks that succeed or raise) while other pools acquire / release the same workers and the
+  environment pronounces workers dead / revives them / lets the clock run."""
+  c = rand_sched(rng)
+  c['fam'] = 'schedrun'
+  c['spin'] = rng.choice([30, 60, 100])
+  p = rng.randrange(len(c['pw']))
+  mine = [dict(op=rng.choice(['run', 'run', 'call_and_wait']), p=p, task=rng.choice(['ok', 'ok', 'raise']))
+          for _ in range(rng.randrange(1, 3))]
+  if rng.random() < 0.3:
+    mine.insert(0, dict(op='acquire_all', p=p, ws=list(c['pw'][p]), n=0))
+  others = [t for t in c['threads'] if t['kind'] == 'env' or all(o['p'] != p for o in t['ops'])]
+  for t in others:                       # no manual deliveries in this family (the transport answers inline)
+    if t['kind'] == 'env':
+      t['ops'] = [o for o in t['ops'] if o['op'] != 'deliver'] or [dict(op='tick', d=31)]
+  c['threads'] = [dict(kind='pool', ops=mine)] + others[:3]
+  return c
+
+
 def gen_cases(ctx):
+  import os
+  fams = os.environ.get('VERIF_C20_FAMILIES')          # development aid: restrict the families (default: all)
+  for c in _gen_cases(ctx):
+    if not fams or c.get('fam') in fams.split(','):
+      yield c
+
+
+def _gen_cases(ctx):
   yield from ctx.corpus()
   rng, quick = ctx.rng, ctx.quick
   # --- live: small-exhaustive
@@ -221,11 +331,18 @@ def gen_cases(ctx):
       yield own_case(2, [[0, 1], [0, 1]], [oal[a], oal[b], oal[c]])
   for _ in range(500 if quick else 8000):
     yield rand_own(rng)
+  # --- sched (after the older families, whose random streams are thereby unchanged): real threads under the deterministic scheduler, replayed on the LTS
+  for _ in range(1500 if quick else 30000):
+    yield rand_sched(rng)
+  for _ in range(300 if quick else 6000):
+    yield rand_schedrun(rng)
 
 
 # ----------------------------------------------------------------------------- real code
 
 def run_impl(case):
+  if case['fam'] in ('sched', 'schedrun'):
+    return lo.run_real(case)
   return run_live(case) if case['fam'] == 'live' else run_own(case)
 
 
@@ -423,6 +540,14 @@ def run_own(case):
 
 # ----------------------------------------------------------------------------- model
 
+def model_requests_obs(case, obs):
+  if case['fam'] == 'schedrun':      # oracle-only family: the composite operations are not modelled step by step
+    return []
+  if case['fam'] == 'sched':
+    return [lo.model_request(case, obs['choices'])]
+  return model_requests(case)
+
+
 def model_requests(case):
   if case['fam'] == 'live':
     return [dict(model='liveness', now=case['now'], addrs=case['addrs'],
@@ -461,13 +586,39 @@ LIVE_BRANCHES = [
     'deliver/hb-unregister', 'deliver/plain', 'deliver/shutdown', 'kill', 'revive', 'shutdown']
 
 
-def _cover(kind, key):
+def _cover(kind, key, n=1):
   h = _COVER.setdefault(kind, {})
-  h[key] = h.get(key, 0) + 1
+  h[key] = h.get(key, 0) + n
+
+
+def lo_case_key(case):
+  from harness.core import jdump
+  return jdump({k: v for k, v in case.items() if k != 'sched'})
+
+
+PROGRAM_POINTS = [
+    'start', 'aEnter', 'aRdPool', 'aTry', 'aWr', 'aRd2', 'aExit', 'rEnter', 'rRdLocked1', 'rRdPool', 'rRdLocked2', 'rUnlock',
+    'rWr', 'rExit', 'vRdLocked', 'vRdPool', 'lRdLocked', 'lRdPool', 'cEnter', 'cExit', 'iEnter', 'i.foldAcq', 'i.foldRel',
+    'i.getAcq', 'i.getRel', 'iExit', 'kEnter', 'kExit', 'e.die', 'e.die.acq', 'e.die.rel', 'e.revive', 'e.revive.acq',
+    'e.revive.rel', 'e.send', 'e.tick', 'e.deliver.empty', 'e.deliver.fail', 'e.deliver.plain', 'e.deliver.ping',
+    'e.deliver.hb', 'e.hb.register', 'e.hb.unregister', 'e.hb.rel']
+_SCHEDULES = set()
 
 
 def model_obs(case, resps):
+  if case['fam'] == 'schedrun':
+    _cover('schedrun', 'runs')
+    return dict(skip=True)
   r = resps[0]
+  if case['fam'] == 'sched':
+    m = lo.model_obs(case, r)
+    for pp in m['pps']:
+      _cover('sched_program_points', pp)
+    _cover('sched_schedules', 'replayed')
+    _cover('sched_schedules', 'steps', len(m['pps']))
+    _cover('sched_schedule_kind', case['sched']['kind'])
+    _SCHEDULES.add((lo_case_key(case), tuple(t for t, _ in m['steps'])))
+    return m
   if case['fam'] == 'live':
     for b in r['branches']:
       _cover('live_model_branches', b)
@@ -503,6 +654,10 @@ def model_obs(case, resps):
 
 
 def compare(impl, model):
+  if model.get('skip'):
+    return None
+  if 'steps' in impl:
+    return lo.compare(impl, model)
   a, b = impl['obs'], model['obs']
   if len(a) != len(b):
     return f'{len(a)} observations vs {len(b)}'
@@ -525,7 +680,103 @@ def compare(impl, model):
 # ----------------------------------------------------------------------------- oracle (the property itself)
 
 def oracle(case, obs):
+  if case['fam'] in ('sched', 'schedrun'):
+    return oracle_sched(case, obs)
   return oracle_live(case, obs) if case['fam'] == 'live' else oracle_own(case, obs)
+
+
+def oracle_sched(case, obs):
+  """The property, on the public observations taken between every two steps of the real run (written from the
+  English statement; uses the case, which thread moved and what the transport delivered — not the model)."""
+  if obs['outcome'] not in ('done', 'cut'):
+    return f"the run did not finish: {obs['outcome']} {obs.get('err')} blocked={obs.get('blocked')}"
+  if obs['excs']:
+    return f"a thread ended with an exception: {obs['excs']}"
+  ths, npools, nw = case['threads'], len(case['pw']), case['nworkers']
+  steps, snaps = obs['steps'], obs['snaps']
+  drivers = [set() for _ in range(npools)]          # threads that act for a pool
+  for t, th in enumerate(ths):
+    if th['kind'] == 'pool':
+      for o in th['ops']:
+        drivers[o['p']].add(t)
+  last_step = {}                                     # (tid, op index) -> index of its last executed step
+  first_step = {}
+  for k, (tid, _, oi) in enumerate(steps):
+    last_step[(tid, oi)] = k
+    first_step.setdefault((tid, oi), k)
+  for k, (tid, label, oi) in enumerate(steps):
+    a, b = snaps[k], snaps[k + 1]
+    th = ths[tid]
+    op = th['ops'][oi]
+    where = f'step {k} (thread {tid} {label}, op {op})'
+    for w in range(nw):
+      oa, ob = a['owners'][w], b['owners'][w]
+      if len(ob) > 1:
+        return f'{where}: worker {w} is owned by pools {ob}'
+      if not b['sl'][w] and b['locked'][w] != bool(ob):
+        return f'{where}: worker {w} locked={b["locked"][w]} but owners={ob} (nobody inside its state lock)'
+      for p in set(oa) - set(ob):
+        ok = (th['kind'] == 'pool' and op['p'] == p and
+              ((op['op'] == 'release' and op['w'] == w) or (op['op'] == 'release_all' and (not op['ws'] or w in op['ws']))
+               or (op['op'] in lo.COMPOSITE_OPS and w in case['pw'][p])))
+        if not ok:
+          return f'{where}: pool {p} lost worker {w} through an operation that is not its own release'
+      for p in set(ob) - set(oa):
+        ok = (th['kind'] == 'pool' and op['p'] == p and
+              ((op['op'] == 'acquire_all' and w in op['ws']) or (op['op'] == 'next_idle' and op['acq'] and w in op['ws'])
+               or (op['op'] in lo.COMPOSITE_OPS and w in case['pw'][p])))
+        if not ok:
+          return f'{where}: pool {p} became owner of worker {w} through an operation that does not acquire it for {p}'
+      ra, rb = a['reg'][w], b['reg'][w]
+      if ra != rb:
+        info = obs['opinfo'].get(f'{tid},{oi}') if th['kind'] == 'env' and op['op'] in ('deliver', 'send') else None
+        hb = info if (info and info['method'] == 'heartbeat' and info['sender'] == w and not info['fail']) else None
+        registers = th['kind'] == 'env' and ((op['op'] == 'revive' and op['w'] == w) or (hb is not None and hb['alive']))
+        unregisters = th['kind'] == 'env' and ((op['op'] == 'die' and op['w'] == w) or (hb is not None and not hb['alive']))
+        if rb == 'absent':
+          return f'{where}: the registry forgot worker {w}'
+        if ra is None and not registers:
+          return f'{where}: worker {w} was declared dead and is recorded alive again ({rb}) without re-registering'
+        if rb is None and not unregisters:
+          return f'{where}: worker {w} was pronounced dead by an operation that does not unregister it'
+        if ra not in (None, 'absent') and rb is not None and rb < ra:
+          return f'{where}: recorded heartbeat of worker {w} moved backwards {ra} -> {rb}'
+    # ---- an operation has just finished
+    if last_step.get((tid, oi)) == k and th['kind'] == 'pool' and oi < len(obs['results'][tid]):
+      res = obs['results'][tid][oi]
+      p = op['p']
+      span = snaps[first_step[(tid, oi)]:k + 2]
+      if op['op'] in ('next_idle', 'idle'):
+        got = [] if res in ('none', None) else ([res] if isinstance(res, int) else list(res))
+        for w in got:
+          if all(s['reg'][w] is None for s in span) and case['thr'] <= case['now']:
+            return (f'{where}: {op["op"]} returned worker {w} as alive although it was declared dead before the '
+                    f'operation began and did not re-register')
+          if all(s['owners'][w] and s['owners'][w] != [p] for s in span):
+            return f'{where}: {op["op"]} of pool {p} returned worker {w}, owned by pool {span[0]["owners"][w]} all along'
+      if op['op'] == 'next_idle' and isinstance(res, int) and drivers[p] == {tid} and b['owners'][res] != [p]:
+        return f'{where}: next_idle_worker of pool {p} returned worker {res} but the pool does not own it ({b["owners"][res]})'
+      if op['op'] == 'acquire_all' and drivers[p] == {tid}:
+        for w in res:
+          if b['owners'][w] != [p]:
+            return f'{where}: _acquire_all of pool {p} returned worker {w} but its owners are {b["owners"][w]}'
+      if op['op'] == 'release_all' and not op['ws'] and drivers[p] == {tid}:
+        held = [w for w in range(nw) if p in b['owners'][w]]
+        if held:
+          return f'{where}: release_all() of pool {p} returned and the pool still owns workers {held}'
+      if op['op'] in lo.COMPOSITE_OPS and drivers[p] == {tid}:
+        # "when a pool-level operation returns or raises, none of its workers remains acquired"
+        held = [w for w in range(nw) if p in b['owners'][w]]
+        before = [w for w in range(nw) if p in span[0]['owners'][w]]
+        if op['op'] == 'run' and str(res).startswith('err:ValueError:Failed to connect'):
+          # run() on a pool without a live worker fails in wait_until_alive() before its try block: it did not start
+          if held != before:
+            return f'{where}: run() that could not start (no live worker) changed what pool {p} owns: {before} -> {held}'
+        elif held:
+          return f'{where}: {op["op"]}() of pool {p} ended with {res!r} and the pool still owns workers {held}'
+  if obs['outcome'] == 'done' and not all(obs['finished']):
+    return f"threads did not finish: {obs['finished']}"
+  return None
 
 
 def oracle_live(case, obs):
@@ -642,6 +893,9 @@ def oracle_own(case, obs):
 
 
 def nontrivial(case, obs):
+  if case['fam'] in ('sched', 'schedrun'):
+    ch = obs['choices']
+    return sum(1 for a, b in zip(ch, ch[1:]) if a != b) >= 8
   if case['fam'] == 'live':
     seen_dead = False
     for ev, o in zip(case['events'], obs['obs']):
@@ -665,7 +919,20 @@ def finding(case, what):
 
 
 def neighbours(case, rng):
-  import copy
+  if case['fam'] == 'schedrun':
+    for k in range(300):
+      c = copy.deepcopy(case)
+      c['sched'] = sched_spec(rng)
+      yield c
+    return
+  if case['fam'] == 'sched':
+    for k in range(300):
+      c = copy.deepcopy(case)
+      c['sched'] = sched_spec(rng)
+      yield c
+    for _ in range(200):
+      yield rand_sched(rng)
+    return
   if case['fam'] == 'live':
     evs = case['events']
     for i in range(len(evs)):
@@ -680,7 +947,32 @@ def neighbours(case, rng):
       yield rand_own(rng)
 
 
+def shrink_sched(case, fails):
+  cur = case
+  changed = True
+  while changed:
+    changed = False
+    for t in range(len(cur['threads']) - 1, -1, -1):
+      cands = []
+      if len(cur['threads']) > 1:
+        c = copy.deepcopy(cur); del c['threads'][t]; cands.append(c)
+      for j in range(len(cur['threads'][t]['ops']) - 1, -1, -1):
+        if len(cur['threads'][t]['ops']) > 1:
+          c = copy.deepcopy(cur); del c['threads'][t]['ops'][j]; cands.append(c)
+      for c in cands:
+        if c['sched']['kind'] == 'replay':
+          continue
+        if fails(c):
+          cur, changed = c, True
+          break
+      if changed:
+        break
+  return cur
+
+
 def shrink(case, fails):
+  if case['fam'] in ('sched', 'schedrun'):
+    return shrink_sched(case, fails)
   cur = case
   key = 'events' if case['fam'] == 'live' else 'ops'
   changed = True
@@ -720,11 +1012,78 @@ EXPLORE = [
 ]
 
 
+COVER_CONFIGS = [
+    # small configurations whose LTS is searched breadth-first for a shortest schedule to every program point
+    dict(nworkers=1, pw=[[0], [0]], thr=100, now=1000, reg0=['alive'],
+         threads=[dict(kind='pool', ops=[dict(op='next_idle', p=0, ws=[0], acq=True), dict(op='release_all', p=0, ws=[])]),
+                  dict(kind='pool', ops=[dict(op='acquire_all', p=1, ws=[0], n=0), dict(op='release', p=1, w=0)]),
+                  dict(kind='env', ops=[dict(op='die', w=0), dict(op='revive', w=0)])]),
+    dict(nworkers=1, pw=[[0], [0]], thr=100, now=1000, reg0=['alive'],
+         threads=[dict(kind='pool', ops=[dict(op='call', p=0, w=0), dict(op='idle', p=0), dict(op='next_idle', p=0, ws=[0], acq=False)]),
+                  dict(kind='pool', ops=[dict(op='next_idle', p=1, ws=[0], acq=True), dict(op='release', p=0, w=0)]),
+                  dict(kind='env', ops=[dict(op='deliver', k=0, fail=False), dict(op='tick', d=200), dict(op='deliver', k=0, fail=True)])]),
+    dict(nworkers=2, pw=[[0, 1], [1, 0]], thr=100, now=1000, reg0=['dead', 'alive'],
+         threads=[dict(kind='pool', ops=[dict(op='next_idle', p=0, ws=[0, 1], acq=True), dict(op='next_idle', p=0, ws=[0, 1], acq=True)]),
+                  dict(kind='env', ops=[dict(op='send', w=0, alive=True), dict(op='send', w=1, alive=False),
+                                        dict(op='deliver', k=1, fail=False), dict(op='deliver', k=0, fail=False),
+                                        dict(op='deliver', k=0, fail=False), dict(op='deliver', k=0, fail=False)])]),
+]
+
+
+def _model_guided_stage(ctx):
+  """For each small configuration the driver searches the product LTS breadth-first and returns, per program point,
+  a shortest schedule whose last step is taken there; every such schedule is replayed on the REAL code (strict
+  replay, then the run is cut) and compared step by step, and the oracle is applied to the real run."""
+  limit = 60000 if ctx.quick else 400000
+  reqs = [dict(model='owner', mode='xcover', limit=limit, **{k: (v if k != 'threads' else
+               [dict(kind=t['kind'], ops=[lo.model_op(o) for o in t['ops']]) for t in v]) for k, v in cfg.items()})
+          for cfg in COVER_CONFIGS]
+  resps = ctx.lean.ask_many(reqs)
+  reached = set()
+  for cfg, r in zip(COVER_CONFIGS, resps):
+    if 'driver_error' in r:
+      ctx.extra_disagreements.append(('xcover', cfg, str(r)))
+      continue
+    ctx.count('sched_model_guided', 'LTS states searched', r['states'])
+    todo = []
+    for f in r['found']:
+      case = dict(fam='sched', sched=dict(kind='replay', choices=f['sched']), **copy.deepcopy(cfg))
+      todo.append((f['pp'], case, lo.run_real(case)))
+    mresps = ctx.lean.ask_many([lo.model_request(case, obs['choices']) for _, case, obs in todo])
+    for (pp, case, obs), mr in zip(todo, mresps):
+      ctx.extra_evals += 1
+      ctx.count('sched_model_guided', 'schedules replayed on the real code')
+      m = lo.model_obs(case, mr)
+      d = lo.compare(obs, m)
+      if d is None and (len(m['pps']) != len(case['sched']['choices']) or m['pps'][-1] != pp):
+        d = f'replay did not end at program point {pp}: {m["pps"][-1:]}'
+      if d is not None:
+        ctx.extra_disagreements.append(('sched-model-guided', case, dict(why=d)))
+        continue
+      w = oracle_sched(case, obs)
+      if w is not None:
+        ctx.extra_oracle_failures.append((case, w))
+        continue
+      reached.add(pp)
+      _cover('sched_program_points_model_guided', pp)
+  return reached
+
+
 def extra(ctx):
+  reached = _model_guided_stage(ctx)
   for kind, h in _COVER.items():
     ctx.hist[kind] = dict(sorted(h.items()))
+  ctx.hist.setdefault('sched_schedules', {})['distinct interleavings (case, schedule)'] = len(_SCHEDULES)
+  seen = set(_COVER.get('sched_program_points', {})) | reached
+  missing_pp = [pp for pp in PROGRAM_POINTS if pp not in seen]
+  ctx.notes.append(f'sched: {len(seen & set(PROGRAM_POINTS))}/{len(PROGRAM_POINTS)} program points of the product LTS executed on the real '
+                   f'code under the scheduler ({len(reached)} by the model-guided stage); {len(_SCHEDULES)} distinct interleavings')
+  if missing_pp and _COVER.get('sched_program_points'):
+    from harness.core import InfraError
+    raise InfraError(f'C20 sched family missed program points {missing_pp}')
+  import os
   missing = [b for b in LIVE_BRANCHES if b not in _COVER.get('live_model_branches', {})]
-  if missing:
+  if missing and not os.environ.get('VERIF_C20_FAMILIES'):
     from harness.core import InfraError
     raise InfraError(f'C20 generator missed model branches {missing}')
   # 1. exhaustive interleavings of small LTS configurations (test of the model, not a proof)
